@@ -34,6 +34,10 @@ const preludeInt = `(set-logic ALL)
 (define-fun go_div ((a Int) (b Int)) Int (ite (>= a 0) (ite (> b 0) (div a b) (- (div a (- b)))) (ite (> b 0) (- (div (- a) b)) (div (- a) (- b)))))
 (define-fun go_rem ((a Int) (b Int)) Int (- a (* b (go_div a b))))
 (declare-fun dyntype (Int) Int)
+(declare-fun sofb ((Array Int Int) Int Int) Str)
+(declare-fun bofs (Str) (Array Int Int))
+(assert (forall ((s Str) (i Int)) (! (= (select (bofs s) i) (sat s i)) :pattern ((select (bofs s) i)))))
+(assert (forall ((s Str)) (! (= (sofb (bofs s) 0 (slen s)) s) :pattern ((bofs s)))))
 `
 
 const preludeBV = `(set-logic ALL)
